@@ -8,9 +8,12 @@
    The statement for ALL modelled actions (C09_full) is refuted: doRemoveColumns regroups every view section of
    a summary table, its raw section included, so the old summary table loses its raw section until it is
    auto-removed at the end of the bundle; an action later in the same bundle that adds a column to it (or keeps
-   it alive) leaves a dangling reference.  What is proved: the statement for every bundle without the two
-   regrouping actions (C09_cascade_preserves_partial), for every single action, for the auto-removal loop, for all
-   reachable states, and that removals with back-reference clearing leave no reference to a removed record. *)
+   it alive) leaves a dangling reference (C09_refuted); a section that shows one column twice is regrouped
+   incompletely (C09_dup_refuted).  What is proved: the statement for every bundle of modelled actions in which
+   update_summary_section keeps to its guard (C09_cascade_preserves; the guard is what the two defects break and
+   is evaluated on every recorded bundle), for every bundle without the two regrouping actions with no guard
+   at all (C09_cascade_preserves_partial), for every single action, for the auto-removal loop, for all reachable
+   states, and that removals with back-reference clearing leave no reference to a removed record. *)
 From Coq Require Import ZArith List Bool.
 Import ListNotations.
 Require Import Grist.Model.MetaCascade Grist.Proofs.MetaCascade_main Grist.Proofs.MetaCascade_norefs.
@@ -73,7 +76,34 @@ Proof.
 Qed.
 
 (* ---------------------------------------------------------------------------------------------- *)
-(* what holds: every bundle that does not run update_summary_section *)
+(* what holds: every bundle of modelled actions in which update_summary_section keeps to its guard (the
+   regrouped section is not the raw/record-card section of a table, only its own fields are moved, and
+   afterwards each of its fields shows a column of the target table): exactly what the two defects break.
+   run_bundle_guarded is run_bundle wherever it is defined. *)
+
+Theorem C09_cascade_preserves : forall os m m',
+  RefsResolve m = true -> run_bundle_guarded os m = Ok m' -> RefsResolve m' = true.
+Proof. exact run_bundle_guarded_preserves. Qed.
+
+Theorem C09_guarded_is_faithful : forall os m m', run_bundle_guarded os m = Ok m' -> run_bundle os m = Ok m'.
+Proof. exact run_bundle_guarded_agrees. Qed.
+
+Theorem C09_reachable_guarded : forall m, reachable_g m -> RefsResolve m = true.
+Proof. exact reachable_g_resolve. Qed.
+
+(* the guard rejects both witnesses, and accepts a regrouping that behaves: UpdateSummaryViewSection(5, [])
+   on the document of the first witness (the old summary table, left with its raw section only, is
+   auto-removed) *)
+Example c09_guard_examples :
+  res_unmodelled (run_bundle_guarded c09_bad_bundle c09_before) = true /\
+  res_unmodelled (run_bundle_guarded c09_dup_bundle c09_dup_before) = true /\
+  match run_bundle_guarded [ORegroup (mkRG 5 0 3 1 [] [] [2; 0] [] [9] [(10, 8)] [])] c09_before with
+  | Ok m => RefsResolve m && negb (mem 2 (tids m)) && mem 3 (tids m)
+  | _ => false
+  end = true.
+Proof. vm_compute. repeat split; reflexivity. Qed.
+
+(* without any guard: every bundle that does not run update_summary_section *)
 
 Theorem C09_cascade_preserves_partial : forall os m m',
   no_regroups os = true -> RefsResolve m = true -> run_bundle os m = Ok m' -> RefsResolve m' = true.
